@@ -741,6 +741,34 @@ class Body:
                         d[pl["l"]].append((site, "call", st))
                     else:
                         part[pl["l"]].append((site, st))
+            # out-parameters: `&mut local` (possibly reborrowed) handed to a call is a definition of local
+            refof = {}
+            for l, lst in list(d.items()):
+                for site, kind, payload in lst:
+                    if kind == "assign" and payload["rv"] == "ref" and payload.get("bk") == "mut":
+                        pl = payload["pl"]
+                        if not pl["p"]:
+                            refof[l] = pl["l"]
+                        elif pl["p"] == ["*"] and pl["l"] in refof:
+                            refof[l] = refof[pl["l"]]
+            changed = True
+            while changed:
+                changed = False
+                for l, lst in d.items():
+                    if l in refof:
+                        continue
+                    for site, kind, payload in lst:
+                        if kind == "assign" and payload["rv"] == "ref" and payload.get("bk") == "mut" and payload["pl"]["p"] == ["*"] and payload["pl"]["l"] in refof:
+                            refof[l] = refof[payload["pl"]["l"]]
+                            changed = True
+            for site, st in self.sites(normal_only=False):
+                if site.i is None and st["t"] == "call":
+                    for ai, a in enumerate(st["args"]):
+                        if a["k"] in ("copy", "move") and not a["pl"]["p"] and a["pl"]["l"] in refof:
+                            tgt = refof[a["pl"]["l"]]
+                            # only scalars / small values are modelled as out-params (not &mut self receivers)
+                            if self.locals[tgt]["ty"] in ("u8", "u16", "u32", "u64", "usize", "i32", "i64", "bool"):
+                                d[tgt].append((site, "outparam", (st, ai)))
             self._defs = (d, part)
         return self._defs
 
@@ -827,15 +855,20 @@ class Body:
             seen = frozenset()
         name = self._names.get(l, f"_{l}")
         is_arg = 1 <= l <= self.arg_count
-        if l in seen or depth > 60:
+        if depth > 80:
             return Expr("var", name=name, l=l)
         ds, from_entry = self.reaching_defs(l, at)
         if not ds:
             if is_arg:
                 return Expr("arg", i=l, name=self._names.get(l, ""), ty=self.local_ty(l))
             return Expr("var", name=name, l=l)
-        seen2 = seen | {l}
-        es = [self._expr_of_def(x, depth + 1, seen2, l) for x in ds[:8]]
+        es = []
+        for x in ds[:8]:
+            key = (l, x[0])
+            if key in seen:
+                es.append(Expr("var", name=name, l=l))
+            else:
+                es.append(self._expr_of_def(x, depth + 1, seen | {key}, l))
         if is_arg and from_entry:
             es.append(Expr("arg", i=l, name=self._names.get(l, ""), ty=self.local_ty(l)))
         if len(es) == 1:
@@ -846,6 +879,10 @@ class Body:
         site, kind, payload = d
         if seen is None:
             seen = frozenset()
+        if kind == "outparam":
+            term, ai = payload
+            c = callee_of(term)
+            return Expr("call", [], path="out:" + (callee_name(c) if c else "<indirect>"), site=site, info=c, out=ai)
         if kind == "call":
             c = callee_of(payload)
             args = [self.expr_of_operand(a, site, depth, seen) for a in payload["args"]]
